@@ -64,8 +64,21 @@ def genHistory (pipe : String) (n : Nat) : G (List String) := do
       sets := sets ++ [.template [(tid, dataTpl)] 0]
       sc := { sc with data := some (tid, dataTpl) }
     if sc.opts.isNone ∨ (← chance 1 4) then
-      let tid ← range 300 302
-      let (s, o) ← genOptsLayout version
+      -- IPFIX: now and then the same template id, element ids and widths as before with one element moved between the
+      -- IANA registry and an enterprise one (element 34 of a vendor is not samplingInterval, and the other way round)
+      let toggled : Option (Nat × List SField × List SField) ← (do
+        match sc.opts with
+        | some (tid, s, o) =>
+          if version = 10 ∧ !o.isEmpty ∧ (← chance 1 2) then
+            let i ← below o.length
+            let pen ← range 1 60000
+            let o' := (List.range o.length).zip o |>.map fun (j, f) =>
+              if j = i then ({ f with ent := if f.ent.isNone then some pen else none } : SField) else f
+            pure (some (tid, s, o'))
+          else pure none
+        | none => pure none)
+      let tid ← match toggled with | some t => pure t.1 | none => range 300 302
+      let (s, o) ← match toggled with | some t => pure t.2 | none => genOptsLayout version
       sets := sets ++ [if version = 9 then .v9opts [(tid, s, o)] 0 else .ipfixopts [(tid, s, o)] 0]
       sc := { sc with opts := some (tid, s, o) }
     -- at most one sampling record per message, before or after the data set
